@@ -293,8 +293,33 @@ type GF struct {
 	Str string
 	Bin []byte
 	In  Inner
+	Dg  Digest // a named byte-slice type (a list on the wire, as the kind table says)
 	A   *GF
 	B   *GF
+}
+
+// SlMapSl / SlMapPtr / MpMpPtr: unnamed maps in VALUE position (list element, map value) that hold
+// containers and shared pointers themselves
+type SlMapSl struct{ V []map[string][]int32 }
+type SlMapPtr struct {
+	X *Inner
+	V []map[string]*Inner
+	Y *Inner
+}
+type MpMpPtr struct {
+	M map[string]map[string]*Inner
+	Z *Inner
+}
+
+// Totals: a second named map type (C14: a type-name edit can turn one registered map type into another)
+type Totals map[string]int32
+
+func (Totals) HessianCodecName() string { return "com.example.Totals" }
+
+// MpNamed: named maps as the values of a map-typed field
+type MpNamed struct {
+	Groups map[string]NamedMap
+	Sum    Totals
 }
 
 // GHolder ends a graph with probe references to an early and a late node
@@ -407,6 +432,7 @@ var Types = []Entry{
 	e(Embedded{}, "embedded"), e(Embedded2{}, "embedded"),
 	e(NamedS{}, "custom"), e(NamedHolder{}, "custom"), e(NamedListHolder{}, "custom", "custom-slice"), e(NamedMapHolder{}, "custom", "custom-map"), e(MapThenLists{}, "custom", "custom-map", "slice"), e(PadThen{}, "scalars"),
 	e(Uni{}, "scalars", "unicode-fields"), e(NamedNode{}, "recursive", "custom"), e(MpStructKey{}, "map", "struct-key"), e(MpStrAny{}, "map", "iface"),
+	e(SlMapSl{}, "slice", "slice-of-map"), e(SlMapPtr{}, "slice", "slice-of-map", "recursive"), e(MpMpPtr{}, "map", "recursive"), e(MpNamed{}, "map", "custom", "custom-map"),
 	e(DigestHolder{}, "slice", "named-bytes"), e(StampedHolder{}, "embedded", "embedded-time"), e(PtrMap{}, "map", "ptr-map"),
 	e(SlBool{}, "slice"), e(SlInt{}, "slice"), e(SlInt8{}, "slice"), e(SlInt16{}, "slice"), e(SlInt32{}, "slice"), e(SlInt64{}, "slice"),
 	e(SlUint{}, "slice"), e(SlUint16{}, "slice"), e(SlUint32{}, "slice"), e(SlUint64{}, "slice"),
